@@ -6,15 +6,16 @@
      [sid, p, inc, ok, form, epath, tok, mv]   (type class, decoded Path and info tag of the error).
    Every event must be what the recursive definition prescribes for that schema:
    same verdict, and for a rejection the same offending position and that token.
-   A deviating event is reported (FAILJSON) and validation continues.           *)
+   A deviating event is reported (FAILJSON) and validation continues; an event for which
+   the definition prescribes no verdict (Unj) is counted and passes.             *)
 EXTENDS SchemaPath, Json, TLC
 CONSTANTS TraceFile, SchemaFile, MaxFail
 Trace   == ndJsonDeserialize(TraceFile)
 Schemas == ndJsonDeserialize(SchemaFile)
 SchemaOf(sid) == Schemas[CHOOSE i \in 1..Len(Schemas) : Schemas[i].id = sid].kids
 
-VARIABLES l, nfail
-TInit == l = 1 /\ nfail = 0
+VARIABLES l, nfail, nunj
+TInit == l = 1 /\ nfail = 0 /\ nunj = 0
 \* Does the structured error identify element `at` of the input (Len+1 = something is missing
 \* after the end)?  Only the error's type and fields count (decoded Path `epath`, info tag `tok`),
 \* not its wording:
@@ -40,15 +41,16 @@ Judge(e) ==
       want == Rec(sch, e.p, e.inc)
       good == /\ want.ok = e.ok
               /\ ~want.ok => Identifies(e, want.at)
-  IN IF good THEN [good |-> TRUE]
+  IN IF want.at = -1 THEN [good |-> TRUE, unj |-> TRUE]      \* no verdict prescribed (past the first key of a multi-key list)
+     ELSE IF good THEN [good |-> TRUE, unj |-> FALSE]
      ELSE [good |-> FALSE, sid |-> e.sid, p |-> e.p, inc |-> e.inc, wantok |-> want.ok, wantat |-> want.at,
            gotok |-> e.ok, gotat |-> GotAt(e), gottok |-> e.tok, form |-> e.form, epath |-> e.epath,
            ph |-> IF want.ok THEN "end:" \o Run(sch, e.p).ph ELSE PhaseBefore(sch, e.p, want.at)]
 TStep == /\ l <= Len(Trace) /\ l' = l + 1
          /\ LET j == Judge(Trace[l]) IN
-            IF j.good THEN UNCHANGED nfail
-            ELSE /\ nfail' = nfail + 1
+            IF j.good THEN UNCHANGED nfail /\ nunj' = nunj + (IF j.unj THEN 1 ELSE 0)
+            ELSE /\ nfail' = nfail + 1 /\ UNCHANGED nunj
                  /\ (nfail >= MaxFail \/ PrintT("FAILJSON " \o ToJson(j)))
 Consumed == l = Len(Trace) + 1
-Report == Consumed => PrintT(<<"TRACE-RESULT", Len(Trace), nfail>>)
+Report == Consumed => PrintT(<<"TRACE-RESULT", Len(Trace), nfail>>) /\ PrintT(<<"TRACE-UNJUDGED", nunj>>)
 =============================================================================
